@@ -43,14 +43,8 @@ func (r *Registry) GetConn(endpoints []string) (EtcdClient, error) {
 // Monitor 监控给定 etcd 端点的 key，通过 UpdateListener 进行通知。
 func (r *Registry) Monitor(endpoints []string, key string, l UpdateListener) error {
 	c, exists := r.getCluster(endpoints)
-	if exists {
-		kvs := c.getCurrent(key)
-		for _, kv := range kvs {
-			l.OnAdd(kv)
-		}
-	}
 
-	return c.monitor(key, l)
+	return c.monitor(key, l, exists)
 }
 
 func (r *Registry) getCluster(endpoints []string) (c *cluster, exists bool) {
@@ -284,14 +278,14 @@ func (c *cluster) watchStream(cli EtcdClient, key string, rev int64) bool {
 }
 
 func (c *cluster) handleWatchEvents(key string, events []*clientv3.Event) {
-	c.lock.Lock()
-	listeners := append([]UpdateListener(nil), c.listeners[key]...)
-	c.lock.Unlock()
-
 	for _, event := range events {
+		// 监听器名单与该事件对 values 的修改取自同一次加锁：
+		// 中途加入的监听器要么在回放中看到该事件的结果，要么收到该事件的通知。
+		var listeners []UpdateListener
 		switch event.Type {
 		case clientv3.EventTypePut:
 			c.lock.Lock()
+			listeners = append(listeners, c.listeners[key]...)
 			if vals, ok := c.values[key]; ok {
 				vals[string(event.Kv.Key)] = string(event.Kv.Value)
 			} else {
@@ -306,6 +300,7 @@ func (c *cluster) handleWatchEvents(key string, events []*clientv3.Event) {
 			}
 		case clientv3.EventTypeDelete:
 			c.lock.Lock()
+			listeners = append(listeners, c.listeners[key]...)
 			if vals, ok := c.values[key]; ok {
 				delete(vals, string(event.Kv.Key))
 			}
@@ -337,9 +332,19 @@ func (c *cluster) getCurrent(key string) []KV {
 	return kvs
 }
 
-func (c *cluster) monitor(key string, l UpdateListener) error {
+func (c *cluster) monitor(key string, l UpdateListener, replay bool) error {
 	c.lock.Lock()
 	c.listeners[key] = append(c.listeners[key], l)
+	if replay {
+		// 集群已在监控中：在登记监听器的同一把锁内回放当前值。
+		// 此前处理完的事件都已体现在回放里，此后处理的事件都会通知到该监听器，两者之间不留空隙。
+		for k, v := range c.values[key] {
+			l.OnAdd(KV{
+				Key: k,
+				Val: v,
+			})
+		}
+	}
 	c.lock.Unlock()
 
 	cli, err := c.getClient()
